@@ -625,6 +625,15 @@ def ev_term(t, atoms):
             return ops[t[1]]()
     if k == "ifexp":
         return ev_term(t[2] if ev_term(t[1], atoms) else t[3], atoms)
+    if k == "call" and t[1] in ("builtins.len", "builtins.bool",
+                                "builtins.any", "builtins.all") and \
+            len(t[2]) == 1 and not t[3]:
+        v = ev_term(t[2][0], atoms)
+        try:
+            return {"builtins.len": len, "builtins.bool": bool,
+                    "builtins.any": any, "builtins.all": all}[t[1]](v)
+        except TypeError:
+            raise EvUnknown(_tkey(t)[:120])
     raise EvUnknown(_tkey(t)[:120])
 
 
@@ -921,6 +930,9 @@ def one_to_one(t, _depth=0):
             if bases and all(b is not None and b == bases[0] for b in bases):
                 return bases[0]
             return None
+        return t        # any other call result is a base sequence itself
+    if k == "mcall":
+        return t
     return None
 
 
@@ -986,4 +998,34 @@ def bound_margs(prog, t):
     ps = [p for p in cands[0].params[1:] if not p.startswith("*")]
     out = dict(zip(ps, t[3]))
     out.update(dict(t[4]))
+    return out
+
+
+def strlen_lin(t):
+    """Length of a text term as a linear form: literals count their
+    characters, concatenations and f-strings add up, anything else X
+    contributes the atom len(X).  ``len(a + "[" + b)`` and
+    ``2 + len(a) + len(b) - 1`` can then be compared exactly."""
+    out = Lin({}, 0)
+    for part in text_parts(t):
+        if part[0] == "const" and isinstance(part[1], str):
+            out = out + Lin({}, len(part[1]))
+        else:
+            out = out + lin(("call", "builtins.len", (part,), ()))
+    return out
+
+
+def lin_with_lengths(t):
+    """lin(t) with every len(<text>) atom expanded by strlen_lin"""
+    base = lin(t)
+    out = Lin({}, base.const)
+    for k, c in base.atoms.items():
+        a = base.terms[k]
+        if a[0] == "call" and a[1] == "builtins.len" and len(a[2]) == 1 and \
+                a[2][0][0] in ("bin", "fstr", "const"):
+            out = out + strlen_lin(a[2][0]).scale(c)
+        else:
+            one = Lin({k: c}, 0)
+            one.terms = {k: a}
+            out = out + one
     return out
